@@ -270,7 +270,13 @@ static void cmd_model_spec(int k, mjSpec* s) {
   basesz = (long)mj_sizeModel(M);
   base = malloc(basesz + 64);
   memset(base, 0xEE, basesz + 64);
+  errarmed = 1;
+  if (setjmp(errjmp)) {   // e.g. bufwrite: attempting to write outside model buffer
+    errarmed = 0; printf("M %d 0 0 0 mj_saveModel into mj_sizeModel bytes raised: %s\n", k, errmsg);
+    mj_deleteModel(M); M = NULL; free(base); base = NULL; basesz = 0; return;
+  }
   mj_saveModel(M, NULL, base, (int)basesz);
+  errarmed = 0;
   // the save must not touch anything after mj_sizeModel bytes, and must write all of them
   int over = 0; for (int i = 0; i < 64; i++) if (base[basesz + i] != 0xEE) over = 1;
   { unsigned char* b2 = malloc(basesz + 64); memset(b2, 0x11, basesz + 64);
